@@ -327,6 +327,8 @@ func ruleFlushComplete(c *Ctx) {
 	aofbuf := c.Field("internal/server", "Server", "aofbuf")
 	aof := c.Field("internal/server", "Server", "aof")
 	fg := newFlowGraph(info, fl.Decl.Body)
+	helpers := c.calledOnlyFrom("flushAOF")
+	xf := newXFlow(c, info, fl.Decl.Body, func(f *types.Func) bool { return helpers[f] && f != fl.Obj })
 	writes := fg.Find(func(x ast.Node) bool {
 		call, ok := x.(*ast.CallExpr)
 		if !ok || len(call.Args) != 1 {
@@ -335,7 +337,8 @@ func ruleFlushComplete(c *Ctx) {
 		se, ok := ast.Unparen(call.Fun).(*ast.SelectorExpr)
 		return ok && se.Sel.Name == "Write" && selField(info, se.X) == aof && selField(info, call.Args[0]) == aofbuf
 	})
-	resets := fg.Find(func(x ast.Node) bool {
+	// resets of the buffer, in flushAOF or in a helper only it calls (resetAOFBuf)
+	isReset := func(x ast.Node) bool {
 		as, ok := x.(*ast.AssignStmt)
 		if !ok {
 			return false
@@ -346,7 +349,8 @@ func ruleFlushComplete(c *Ctx) {
 			}
 		}
 		return false
-	})
+	}
+	resets := xf.Find(isReset)
 	if len(writes) == 0 {
 		c.bad("write-whole-buffer", fl.Decl.Pos(), "flushAOF does not pass the whole Server.aofbuf to aof.Write")
 		return
@@ -355,7 +359,7 @@ func ruleFlushComplete(c *Ctx) {
 	for _, r := range resets {
 		d := false
 		for _, w := range writes {
-			if fg.Dominates(w, r) {
+			if xf.Dominates(XLoc{Outer: w, N: w.Node}, r) {
 				d = true
 			}
 		}
